@@ -15,6 +15,7 @@ EXPLANATION = (
     "only on the CommandLine edge and before matcher.start_custom_arg. R7.5 occurrence boundaries: "
     "ArgMatcher::start_custom_arg opens a value group unconditionally (MatchedArg::new_val_group pushes to vals and raw_vals "
     "unconditionally). R7.6 the override relation is stored as declared: Arg::overrides_with pushes the given id and Arg::overrides_with_all extends Arg::overrides with every given id (map(Into::into) only — no filter, so naming the argument itself keeps meaning self-override, as react's `overrides.contains(self)` expects). NOT decided: saturation at exactly 255 and the order under arbitrary interleavings."
+    ' R7.6 (added): relation vectors are written only by the declared setters (writer census).'
 )
 TRUSTED = ["rustc MIR + HIR", "clapfacts"]
 ASSUMPTIONS = ["u8::saturating_add saturates at 255 (std)"]
